@@ -2,10 +2,11 @@
 C03 - assigning to a missing xpath creates exactly the missing chain; new() appends.
 
 Lean: Model/XPathApi.lean (`add`, `setItem`), Props/C03.lean
-B stream : xp.set on creation paths of every shape (inside and outside the honoured grammar; the tree
-  after a failing creation - debris included - is compared as well)
-C evaluators: histories interleaving creations (honoured grammar G_ok), C02 writes and C05 deletes on the
-  implementation vs a plain reference; creations that cannot be honoured must raise and store v nowhere.
+B stream : xp.set on creation paths of every shape (inside and outside the creation grammar; the tree
+  after a refused creation is compared as well)
+C evaluators: histories interleaving creations (the whole creation grammar: element-creating steps may follow
+  one another), C02 writes and C05 deletes on the implementation vs a plain reference; creations that cannot be
+  honoured - also those refused only at a deeper level - must raise and leave the tree exactly as it was.
 """
 import copy
 
@@ -18,27 +19,33 @@ from harness.props.c05 import ref_delete
 MANIFEST = dict(
     category="proof",
     technique="Lean 4 theorems over a hand-written model of the xpath engine + differential correspondence with the implementation",
-    text="Lean: the model of _find/_add/__setitem__ follows the code branch by branch, including the in-place wrap done by the "
-         "new() search and what a failing creation leaves behind. Proved, unbounded in tree size, depth of the existing node q and "
-         "length of the created chain, for canonical '//'-rooted paths with plain names: (1) the miss: after tokens that spell an "
-         "existing dict node, a plain key or name[idx] token whose name is absent makes _find report NOT FOUND at that node with "
-         "the tree untouched (C03_find_miss_key, C03_find_miss_keyidx); (2) a chain of fresh names creates exactly the nested "
-         "dictionaries and stores v (C03_create_names = the full names statement); (3) name[new()] on a list appends exactly one "
-         "element and on a non-list value wraps it as [old, v] (C03_append_new), name[new()] / name[0] on a fresh name creates "
-         "the one-element list (C03_new_on_fresh), name[len] on a list of length len appends exactly one element "
-         "(C03_len_appends) - each also when followed by any chain of fresh names (name[new()]/x/y appends {x: {y: v}}); "
-         "(3b) the general statement over the step type CStep (name | name[e] | [e]) with reference semantics createIn: for "
-         "every path of the honoured grammar G_ok of any length - first step a fresh name, name[new()] (fresh or existing "
-         "name), name[0] (fresh), name[len] below an existing dict node, or a bare [new()]/[len] below an existing list "
-         "(held by a dict key: the text of name[new()]/name[len]; or itself a list element); later steps fresh names, "
-         "n[new()] or n[0] - d[path]=v yields exactly createIn (C03_create; C03_create_partial is the dict-first-step part, "
-         "by mutual induction over the two states of _add: inside a dict / on a list with a placeholder), with exactly one "
-         "hypothesis: for a bare [new()] first step no plain list directly encloses the target list (PlainListEncloses). "
-         "That hypothesis is necessary: [new()] below an element of a plain list raises TypeError and leaves the tree alone "
-         "for every tree, depth and continuation (C03_new_in_plain_list_raises = finding C03-c in general; smallest witness "
-         "C03_new_in_plain_list_cex), so the unhypothesised statement C03_create_stmt is refuted (C03_create_stmt_false); "
-         "below an n0list [new()] appends exactly one element (C03_append_new_in_n0list) and [len] appends below any list "
-         "(C03_len_in_list); "
+    text="Lean: the model of _find/_add/__setitem__ follows the code (with the fix patches C03-a, C03-b, C03-c, C04-a applied) branch "
+         "by branch, including the conversion of a single value by name[new()] and the take-back of a refused creation. Proved, "
+         "unbounded in tree size, depth of the existing node q and length of the created chain, for canonical '//'-rooted paths "
+         "with plain names: (1) the miss: after tokens that spell an existing dict node, a plain key or name[idx] token whose "
+         "name is absent makes _find report NOT FOUND at that node with the tree untouched (C03_find_miss_key, "
+         "C03_find_miss_keyidx); (2) a chain of fresh names creates exactly the nested dictionaries and stores v "
+         "(C03_create_names = the full names statement); (3) name[new()] on a list appends exactly one element and on a "
+         "non-list value wraps it as [old, v] (C03_append_new), name[new()] / name[0] on a fresh name creates the one-element "
+         "list (C03_new_on_fresh), name[len] on a list of length len appends exactly one element (C03_len_appends) - each also "
+         "when followed by any chain of fresh names; (3b) the FULL statement over the step type CStep (name | name[e] | [e]) "
+         "with reference semantics createIn (C03_create_stmt, proved: C03_create_full / C03_create): for every creation path "
+         "of any length - first step a fresh name, name[new()] (fresh or existing name), name[0] (fresh), name[len] below an "
+         "existing dict node, or a bare [new()]/[len] below an existing list (held by a dict key, or itself an element of a "
+         "list of either class: C03_append_in_list); later steps fresh names, n[new()], n[0] and, directly after an "
+         "element-creating step, bare [new()] / [0], in any order (GW only excludes a bare index written directly after a "
+         "name step: that text is the step n[e]) - d[path]=v yields exactly createIn and nothing raises; by mutual induction "
+         "over the two states of _add (inside a dict / on a list with a placeholder). No further hypothesis: the three "
+         "earlier exclusions (element-creating steps following one another = findings C03-a/C03-b, [new()] below an element "
+         "of a plain list = finding C03-c) are repaired and their witnesses are positive instances now (C03_nested_new_ok, "
+         "C03_nested_idx_ok, C03_new_in_plain_list_ok); C03_create_partial is the special case the read-back theorems use; "
+         "(3c) a refused assignment: for EVERY tree, path text, value and exception, after a raising d[xpath]=v the tree is "
+         "the tree before the call or the tree the search returned (C03_err_tree_is_search_tree, needs fix C03-a only) - whatever _add "
+         "had inserted and whatever the store did is gone; and since the search writes nothing (fix C04-a: the new() step "
+         "reports a single value as the miss of name[new()] and _add converts it only when the creation succeeds) the FULL "
+         "statement holds: C03_err_leaves_tree : C03_err_leaves_tree_stmt - after a raising d[xpath]=v the tree is the tree "
+         "before the call (instances C03_refused_leaves_nothing: d['n/m[3]']=v, C03_refused_no_wrap: d['k[new()]/x[5]']=v on "
+         "a single value k; C03_err_leaves_tree_partial is the form that does not depend on fix C04-a); "
          "(4) frame: every node that existed keeps position and value, except ancestors of the written slot; elements of the "
          "list stay, a wrapped value moves below index 0 (C03_frame_new_slot, C03_frame_append, C03_frame_wrap); read-back: "
          "for every creation path of C03_create_partial, getItem through xpath.replace('new()', 'last()') returns v and does "
@@ -51,21 +58,22 @@ MANIFEST = dict(
          "without recursively; pop), its reference semantics Hist.applyOp on plain trees (setAt, createIn, delAt, pruneUp) "
          "and its model run Hist.runOp through __setitem__/delete/pop on the canonical path text of the current state: for "
          "every finite interleaving valid in the state each call is made in (Hist.ValidOps: plain names on the PATHS of the "
-         "operations only - nothing is asked of the keys inside the tree or inside written values) the final tree equals "
-         "the reference fold, nothing raises and every pop returned the node it removed (C03_history, by induction over the "
-         "history; the root stays a dict of the same class: C03_history_root; one call: C03_history_step). "
-         "Stated, not proved: the unrestricted read-back C03_read_back_stmt (any path text that happens to succeed, also "
-         "outside G_ok - finding C03-b contradicts it at fuel 40 - and names containing 'new()'). Refuted by counter-example "
-         "theorems: an error leaves the tree unchanged (C03_err_leaves_tree_false via C03_debris_cex = C03-a), silent "
-         "misplacement (C03_misplaced_cex = C03-b), C03_create_stmt (C03_create_stmt_false = C03-c). Differential part: the "
-         "model is compared with the real code on creation paths of every shape, inside and outside G_ok (tree after success "
-         "and after failure); the statement is executed on the implementation along histories that interleave G_ok "
-         "creations with C02 writes and C05 deletes against a plain reference, and refused creations must raise and store v "
-         "nowhere.",
-    note="G_ok: every element-creating step (name[new()], name[0] on a fresh name, [new()], [len]) is the last step or is "
-         "followed by a plain name step; other shapes are the known findings C03-a/C03-b. Relative spellings of the "
-         "creation paths and histories whose operations use non-canonical spellings are differential only (single "
-         "deletes/pops in every spelling: C05_delete_spellings, C05_pop_spellings).",
+         "operations only - nothing is asked of the keys inside the tree or inside written values; creations inside a "
+         "history are those without later bare index steps) the final tree equals the reference fold, nothing raises and "
+         "every pop returned the node it removed (C03_history, by induction over the history; the root stays a dict of the "
+         "same class: C03_history_root; one call: C03_history_step). "
+         "Stated, not proved: the unrestricted read-back C03_read_back_stmt (any path text that happens to succeed, names "
+         "containing 'new()'); read-back for paths with later bare index steps is checked on instances and by the "
+         "evaluator. Differential part: the model is compared with the real code on creation paths of every shape, inside "
+         "and outside the grammar (tree after success and after refusal); the statement is executed on the implementation "
+         "along histories that interleave creations of the whole grammar with C02 writes and C05 deletes against a plain "
+         "reference (tree, identity of v, read-back), and refused creations - refused at the first or only at a deeper "
+         "level, also on an object that has seen earlier refusals - must raise and leave the tree exactly as it was.",
+    note="Creation grammar: first step name | n[new()] | n[0] | n[len] | [new()] | [len]; later steps name | n[new()] | n[0] | "
+         "[new()] | [0] (a bare index only directly after an element-creating step). Relative spellings of the creation "
+         "paths and histories whose operations use non-canonical spellings are differential only (single deletes/pops in "
+         "every spelling: C05_delete_spellings, C05_pop_spellings). Hist.ValidOp still carries the conjunct about plain "
+         "lists that finding C03-c needed; it is no longer used by the proof.",
     design_ref="5/C03",
 )
 
@@ -112,20 +120,21 @@ def gen_creation(rng, ref, g_ok=True):
             else:
                 steps.append(("Llen", len(cur)))
             cur_kind, cur = "e", None
-        else:  # just created an element
-            if g_ok:
-                name = rng.choice(fresh)
-                steps.append(("N", name))
+        else:  # just created an element: a name, a named element or a bare [new()] / [0] may follow
+            r = rng.random()
+            if r < 0.4:
+                steps.append(("N", rng.choice(fresh)))
                 cur_kind, cur = "d", None
+            elif r < 0.55:
+                steps.append(("Enew", rng.choice(fresh)))
+            elif r < 0.65:
+                steps.append(("E0", rng.choice(fresh)))
+            elif r < 0.85:
+                steps.append(("Lnew",))
+            elif g_ok or r < 0.93:
+                steps.append(("Lidx", 0))
             else:
-                r = rng.random()
-                if r < 0.4:
-                    steps.append(("Lnew",))
-                elif r < 0.6:
-                    steps.append(("Lidx", rng.choice([0, 1])))
-                else:
-                    steps.append(("N", rng.choice(fresh)))
-                    cur_kind = "d"
+                steps.append(("Lidx", rng.choice([1, 2])))  # refused: only new() / 0 inside a list being created
     xp = X.render_rel(ref, base)
     for s in steps:
         if s[0] == "N":
@@ -143,48 +152,62 @@ def gen_creation(rng, ref, g_ok=True):
     return list(base), steps, xp
 
 
-def in_g_ok(steps):
+def in_grammar(steps):
+    """the creation grammar (Lean: CStep.first / CStep.laterW / GW): after the first step only names, named
+    elements and - directly after an element-creating step - bare [new()] / [0]"""
     for i, s in enumerate(steps):
-        if s[0] != "N" and i + 1 < len(steps) and steps[i + 1][0] != "N":
+        if i == 0:
+            if s[0] == "Lidx":
+                return False
+            continue
+        if s[0] in ("Llen", "Enew_existing"):
             return False
-        if s[0] == "Lidx":
-            return False
+        if s[0] in ("Lnew", "Lidx"):
+            if steps[i - 1][0] == "N" or (s[0] == "Lidx" and s[1] != 0):
+                return False
     return True
 
 
+def ref_fill(steps, v):
+    """what a chain of creation steps puts into a slot that did not exist (Lean: fill), and where v sits in it"""
+    if not steps:
+        return v, []
+    s = steps[0]
+    inner, p = ref_fill(steps[1:], v)
+    if s[0] == "N":
+        return {s[1]: inner}, [s[1]] + p
+    if s[0] in ("Enew", "E0"):
+        return {s[1]: [inner]}, [s[1], 0] + p
+    if s[0] == "Lnew" or (s[0] == "Lidx" and s[1] == 0):
+        return [inner], [0] + p
+    raise ValueError("not a creation step")
+
+
 def ref_create(ref, base, steps, v):
-    """plain reference semantics of a creation in G_ok; returns the read-back position"""
+    """plain reference semantics of a creation (Lean: createIn); returns the read-back position"""
     cur = X.get_at(ref, base)
-    pos = list(base)
-    for i, s in enumerate(steps):
-        last = i == len(steps) - 1
-        if s[0] == "N":
-            cur[s[1]] = v if last else {}
-            pos.append(s[1])
-            cur = cur[s[1]]
-        elif s[0] in ("Enew", "E0", "Enew_existing"):
-            name = s[1]
-            if name in cur:
-                if not isinstance(cur[name], list):
-                    cur[name] = [cur[name]]
-            else:
-                cur[name] = []
-            lst = cur[name]
-            lst.append(v if last else {})
-            pos += [name, len(lst) - 1]
-            cur = lst[-1]
-        elif s[0] in ("Lnew", "Llen"):
-            cur.append(v if last else {})
-            pos.append(len(cur) - 1)
-            cur = cur[-1]
+    s = steps[0]
+    inner, p = ref_fill(steps[1:], v)
+    if s[0] == "N":
+        cur[s[1]] = inner
+        return list(base) + [s[1]] + p
+    if s[0] in ("Enew", "E0", "Enew_existing"):
+        name = s[1]
+        if name in cur:
+            if not isinstance(cur[name], list):
+                cur[name] = [cur[name]]
         else:
-            raise ValueError("not in G_ok")
-    return pos
+            cur[name] = []
+        cur[name].append(inner)
+        return list(base) + [name, len(cur[name]) - 1] + p
+    if s[0] in ("Lnew", "Llen"):
+        cur.append(inner)
+        return list(base) + [len(cur) - 1] + p
+    raise ValueError("not a creation step")
 
 
 def in_known(c, detail):
-    if isinstance(detail, dict) and detail.get("c03c") and detail.get("raised") == "TypeError":
-        return "C03-c"
+    # no open class: C03-a/b/c are repaired, C03-d (the conversion made by the search stays) went with fix C04-a
     return None
 
 
@@ -196,7 +219,7 @@ def gen_history(rng, tree, nops):
         poss = [p for p, _ in X.positions(ref) if p]
         if r < 0.6 or not poss:
             base, steps, xp = gen_creation(rng, ref, g_ok=True)
-            if not in_g_ok(steps):
+            if not in_grammar(steps):
                 continue
             v = copy.deepcopy(rng.choice(VALUES))
             ops.append({"op": "create", "base": base, "steps": [list(s) for s in steps], "xp": xp, "v": v})
@@ -216,6 +239,14 @@ def gen_history(rng, tree, nops):
     return ops
 
 
+def existed(tree, pos):
+    try:
+        X.get_at(tree, pos)
+        return True
+    except (KeyError, IndexError, TypeError):
+        return False
+
+
 def check_history(c):
     o = X.convert(c["tree"], c["mode"])
     ref = copy.deepcopy(c["tree"])
@@ -223,12 +254,10 @@ def check_history(c):
         if op["op"] == "create":
             v = X.convert(op["v"], "n0") if op.get("n0v") else copy.deepcopy(op["v"])
             steps = [tuple(s) for s in op["steps"]]
-            # C03-c: new() directly below a list that is itself an element of a *plain* list
-            c03c = bool(steps and steps[0][0] == "Lnew" and op["base"] and isinstance(op["base"][-1], int)
-                        and type(X.get_at(o, op["base"][:-1])) is list)
             r = core.call(lambda: o.__setitem__(op["xp"], v))
             if r[0] != "ok":
-                return {"step": k, "op": op, "raised": r[1], "tree": repr(o)[:300], "c03c": c03c}
+                return {"step": k, "op": op, "raised": r[1], "tree": repr(o)[:300]}
+            ref_before = copy.deepcopy(ref)
             pos = ref_create(ref, op["base"], steps, copy.deepcopy(op["v"]))
             if o != ref or enc_val_plain(o) != enc_val_plain(ref):
                 return {"step": k, "op": op, "tree": repr(o)[:400], "reference": repr(ref)[:400]}
@@ -243,6 +272,11 @@ def check_history(c):
             par = X.get_at(o, pos[:-1])
             if not isinstance(par, (dict, list)):
                 return {"step": k, "op": op, "parent_not_container": repr(par)[:100]}
+            n0dict, n0list = X.n0()
+            for j in range(len(op["base"]) + 1, len(pos)):
+                made = X.get_at(o, pos[:j])
+                if not existed(ref_before, pos[:j]) and not isinstance(made, (n0dict, n0list)):
+                    return {"step": k, "op": op, "created_container_not_navigable": type(made).__name__, "at": list(pos[:j])}
         elif op["op"] == "set":
             v = copy.deepcopy(op["v"])
             r = core.call(lambda: o.__setitem__(op["xp"], v))
@@ -268,22 +302,50 @@ def contains_sentinel(t):
 
 
 def check_refuse(c):
-    """a creation that cannot be honoured raises and stores v nowhere; existing nodes unchanged"""
+    """a creation that cannot be honoured raises and leaves the tree exactly as it was (values, order, classes)"""
     o = X.convert(c["tree"], c["mode"])
-    before = copy.deepcopy(c["tree"])
+    before_enc = enc_val(X.convert(c["tree"], c["mode"]))
+    for xp in c.get("pre", []):      # the same object after earlier refused / honoured assignments
+        core.call(lambda: o.__setitem__(xp, 0))
+        before_enc = enc_val(o)
     r = core.call(lambda: o.__setitem__(c["xp"], SENT))
     if r[0] == "ok":
         return {"no_exception": True, "tree": repr(o)[:300]}
     if contains_sentinel(o):
         return {"raised": r[1], "value_stored_anyway": repr(o)[:300]}
-    for p, v in X.positions(before):
-        if not isinstance(v, (dict, list)):
-            try:
-                if X.get_at(o, p) != v:
-                    return {"raised": r[1], "existing_leaf_changed": list(p)}
-            except Exception:
-                return {"raised": r[1], "existing_leaf_gone": list(p)}
+    if enc_val(o) != before_enc:
+        bad = {"raised": r[1], "tree_changed": repr(o)[:300]}
+        w = c.get("wrap")
+        if w is not None:
+            # the only difference is the single value at `w` turned into [value] by the new() step of the search
+            exp = copy.deepcopy(c["tree"])
+            X.get_at(exp, w[:-1])[w[-1]] = [X.get_at(exp, w)]
+            if not c.get("pre") and enc_val_plain(o) == enc_val_plain(exp):
+                bad["only_wrap_stays"] = True
+        return bad
     return None
+
+
+BAD_TAILS = ["/z[3]", "/z[1]", "/z[-1]", "/z[k=1]", "/[new()]", "/[0]", "/z/[new()]", "/z[new()][1]", "/z[0][2]/y", "/z[new()]/y[2]"]
+
+
+def gen_refuse_deep(rng, tree):
+    """a creation path of the grammar continued by a step that is refused only after the first levels exist;
+    returns (xp, position of a single value the search converts first or None)"""
+    for _ in range(20):
+        base, steps, xp = gen_creation(rng, tree, g_ok=True)
+        if not in_grammar(steps):
+            continue
+        tail = rng.choice(BAD_TAILS)
+        if tail.startswith("/[") and steps[-1][0] != "N":
+            tail = "/z" + tail                      # a bare '[e]' is refused after a NAME step only
+        wrap = None
+        node = X.get_at(tree, base)
+        if steps[0][0] in ("Enew", "Enew_existing") and isinstance(node, dict) and steps[0][1] in node \
+                and not isinstance(node[steps[0][1]], list):
+            wrap = list(base) + [steps[0][1]]
+        return xp + tail, wrap
+    return None, None
 
 
 def gen_refuse(rng, tree):
@@ -316,7 +378,7 @@ def valid_case(c):
         for op in c["ops"]:
             if op["op"] == "create":
                 steps = [tuple(s) for s in op["steps"]]
-                if not in_g_ok(steps):
+                if not in_grammar(steps):
                     return False
                 node = X.get_at(ref, op["base"])
                 if not isinstance(node, (dict, list)):
@@ -388,6 +450,8 @@ def witness_fails(f):
     w = f["witness"]
     o = X.convert(w["tree"], "n0")
     r = core.call(lambda: o.__setitem__(w["xp"], "V"))
+    if w["kind"] == "wrapstays":
+        return r[0] == "err" and enc_val_plain(o) == enc_val_plain(w["after"])
     if w["kind"] == "raises":
         o = X.convert(w["tree"], w.get("mode", "wrap"))
         return core.call(lambda: o.__setitem__(w["xp"], "V"))[0] == "err"
@@ -413,18 +477,30 @@ def run(ctx):
         xp = gen_refuse(rng, t)
         if xp:
             rcases.append({"tree": t, "mode": rng.choice(["n0", "wrap"]), "xp": xp})
-    ctx.evaluate("refuse", rcases, check_refuse)
+    nflat = len(rcases)
+    for _ in range(ctx.budget(600, 15000)):
+        t = X.gen_plain(rng, rng.choice([1, 2, 3]), "d")
+        xp, wrap = gen_refuse_deep(rng, t)
+        if xp:
+            c = {"tree": t, "mode": rng.choice(["n0", "wrap"]), "xp": xp}
+            if wrap is not None:
+                c["wrap"] = wrap
+            elif rng.random() < 0.3:
+                # the same object after an earlier refusal and an honoured creation
+                c["pre"] = [xp, "pre0[new()][0]/p"]
+            rcases.append(c)
+    ctx.evaluate("refuse", rcases, check_refuse, in_known=in_known, nontrivial=lambda c: "/" in c["xp"])
     # B: creation paths of every shape (G_ok and not), model vs implementation, tree after success or failure
     rng = ctx.rng("shapes")
     steps_b = []
-    shapes = {"g_ok": 0, "other": 0}
+    shapes = {"grammar": 0, "other": 0}
     for _ in range(ctx.budget(1500, 40000)):
         t = X.gen_plain(rng, rng.choice([1, 2, 3]), "d")
         base, steps, xp = gen_creation(rng, t, g_ok=rng.random() < 0.5)
-        shapes["g_ok" if in_g_ok(steps) else "other"] += 1
+        shapes["grammar" if in_grammar(steps) else "other"] += 1
         o = X.convert(t, rng.choice(["n0", "wrap"]))
         steps_b.append({"tree_enc": enc_val(o), "xp": xp, "v": rng.choice(["V", 5, None, {"z": 1}, [1]])})
-    for c in rcases[: len(rcases) // 2]:
+    for c in rcases[: nflat // 2] + rcases[nflat: nflat + (len(rcases) - nflat) // 2]:
         steps_b.append({"tree_enc": enc_val(X.convert(c["tree"], c["mode"])), "xp": c["xp"], "v": "V"})
 
     def impl_set(s):
@@ -448,5 +524,5 @@ def run(ctx):
     ctx.extra["shapes"] = shapes
     ctx.extra["assumptions"] = [
         "creation paths are built from fresh plain names, new(), 0 and len indexes below an existing dict or list node",
-        "the evaluator covers the honoured grammar G_ok; other shapes are the listed known findings (model and code agree on them)",
+        "the history evaluator covers the whole creation grammar (element-creating steps in any order); the refuse evaluator paths that are refused at the first or at a deeper level",
     ]
